@@ -104,7 +104,7 @@ func main() {
 		"coq_size_limit_per_function": coqMaxFn,
 		"twin_runs":                   c.twin.Runs, "twin_outcomes_compared": c.twin.Compared, "twin_incomparable": c.twin.Incomparable,
 		"twin_variant_rejected_by_front_end": c.twin.Rejected, "twin_variants_with_register_string_keys": c.twin.RegKeys,
-		"history_recompiled": c.twin.Hist,
+		"history_recompiled": c.twin.Hist, "seconds_in_twins": int(c.twin.TwinTime.Seconds()), "seconds_in_history": int(c.twin.HistTime.Seconds()),
 	}
 	if err := w.Close(); err != nil {
 		panic(err)
